@@ -171,6 +171,11 @@ def const_val(t):
     return t.args[1]
 
 
+import re as _re
+_WIDEN = _re.compile(r"core::convert::num::<impl core::convert::From<[ui]\d+> for [ui](\d+|size)>::from|<T as core::convert::Into<U>>::into|core::convert::num::<impl core::convert::From<bool> for [ui](\d+|size)>::from")
+_FROM_BYTES = _re.compile(r"core::num::<impl [ui](\d+|size)>::from_(be|le)_bytes")
+
+
 class FA:
     """Per-function analysis: SSA-style value lookup, terms, guards."""
 
@@ -666,6 +671,13 @@ class FA:
         if callee is None:
             fnop = self.op_term(t["fnop"], point)
             return set_ty(mk("callind", fnop, args, id(self.fn), b), dty)
+        # lossless integer widening written as From/Into: the same term as the `as` cast
+        if _WIDEN.fullmatch(callee) and len(args) == 1 and dty.get("k") in ("uint", "int"):
+            sty = ty_of(args[0])
+            if sty and sty.get("k") in ("uint", "int", "bool"):
+                return set_ty(mk("cast", "IntToInt", args[0], ty_str(dty)), dty)
+        if _FROM_BYTES.fullmatch(callee):
+            return set_ty(mk("call", callee, args), dty)
         # pure, argument-determined library functions: identity without the site
         if callee in PURE:
             m = PURE[callee]
